@@ -9,14 +9,17 @@ from pathlib import Path
 from codebasin import CodeBase
 from codebasin import report
 
-POOL = [b"", b"a", b"a\n", b"b", b"int x;\n", b"int x;\n "]
+# the last two: same length, same first 70000 bytes, same mtime (set below) - they differ in the last byte only, so a
+# candidate key from the size and a leading block, or a comparison that trusts the stat signature, calls them equal
+_BIG = b"/* generated table */\n" + b"0123456789abcde\n" * 4375
+POOL = [b"", b"a", b"a\n", b"b", b"int x;\n", b"int x;\n ", _BIG + b"1\n", _BIG + b"2\n"]
 
 
 class Dups:
     proved = True
 
     def bound(self, tier):
-        return ("(same directory reused by every case of the run) all assignments of 6 contents (incl. empty, differing in last byte / length) to <=4 files, "
+        return ("(same directory reused by every case of the run) all assignments of 8 contents (incl. empty, differing in last byte / length, two 70 KB files equal but for the last byte) to <=4 files, "
                 "each file optionally a symlink or a hard link to the first one, one optional excluded twin"
                 + ("" if tier == "quick" else "; plus 300 random code bases of <=9 files in nested dirs"))
 
